@@ -76,3 +76,48 @@ func HarnessC20Schedule(files, steps, cpus, enc int) {
 	verifReach("linted")
 	verifScheduleCheck(cpus, enc)
 }
+
+// HarnessC10Races: the same run with every memory access recorded per
+// goroutine: two accesses to one cell by different goroutines, one of them a
+// write, not under a common mutex, must be ordered by the synchronisation in
+// every schedule (decided by the solver on the schedule model with the two
+// accesses inserted). Two CPUs, so that no semaphore degenerates into a lock.
+func HarnessC10Races(files, steps int) {
+	if verifIsNative() {
+		verifC10NativeRaces()
+		return
+	}
+	cpus := 2
+	verifSetNumCPU(cpus)
+	verifSetCwd("/r")
+	verifC10Files = map[string]string{}
+	var args []string
+	for f := 0; f < files; f++ {
+		p := "/r/.github/workflows/w" + strconv.Itoa(f) + ".yml"
+		verifC10Files[p] = verifC20SchedWorkflow(steps)
+		args = append(args, p)
+	}
+	verifC10Cfg = map[string]*Config{"/r": {ConfigVariables: []string{"zeta", "alpha"}}}
+	verifOverride("os.ReadFile", verifC10ReadFile)
+	verifOverride("findProject", verifC10FindProject)
+	verifOverride("loadRepoConfig", verifC10RepoConfig)
+	verifOverride("resolveExternalCommand", verifC20Resolve)
+	verifOverride("os/exec.Command", verifC20Command)
+	verifOverride("(*os/exec.Cmd).StdinPipe", verifC20StdinPipe)
+	verifOverride("io.WriteString", verifC20WriteString)
+	verifOverride("(*os/exec.Cmd).Output", verifC20SchedOutput)
+	verifOverride("(*os/exec.Cmd).CombinedOutput", verifC20SchedOutput)
+	verifC20 = verifC20Cmd{}
+	verifC20JSON.fail, verifC20JSON.n = false, 1 // every shellcheck run reports one issue: the callbacks append to the rule's diagnostics
+	verifOverride("encoding/json.Unmarshal", verifC20Unmarshal)
+	l := &Linter{projects: NewProjects(), cwd: "/r", out: nil, shellcheck: "shellcheck", pyflakes: "pyflakes"}
+	verifTraceStart()
+	verifTraceAccesses(true)
+	errs, err := l.LintFiles(args, nil)
+	verifTraceAccesses(false)
+	verifTraceEvent("return")
+	verifCheck(err == nil, "lint-failed")
+	_ = errs
+	verifReach("linted")
+	verifRaceCheck()
+}
